@@ -118,18 +118,6 @@ func doPair(c *vkit.Collector, rng *vkit.Rng, la, lb *s2.Loop, class string, coq
 		report(c, kind, desc+" ["+class+", X="+xn+", Y="+yn+"]", r)
 	}
 
-	// the known defect (KNOWN_FINDINGS: Loop.Contains.edgeless-cell-target): X.Contains(Y) is false
-	// only because the index walk reports a "crossing" that no edge pair or shared vertex has
-	defect := func(x, y *lv) bool { return containsDefect(x, y) }
-	known := func(kind string, xs ...*lv) string {
-		for i := 0; i+1 < len(xs); i += 2 {
-			if defect(xs[i], xs[i+1]) {
-				return knownKind
-			}
-		}
-		return kind
-	}
-
 	ordered := [][2]variant{}
 	for _, x := range va {
 		for _, y := range vb {
@@ -153,10 +141,10 @@ func doPair(c *vkit.Collector, rng *vkit.Rng, la, lb *s2.Loop, class string, coq
 			viol("Loop.Intersects.sym", "X.Intersects(Y) != Y.Intersects(X)", xn, yn)
 		}
 		if isect != !inv[x].loop.Contains(y.loop) {
-			viol(known("Loop.Intersects.compl", inv[x], y), "X.Intersects(Y) != !Inv(X).Contains(Y)", xn, yn)
+			viol("Loop.Intersects.compl", "X.Intersects(Y) != !Inv(X).Contains(Y)", xn, yn)
 		}
 		if cont != inv[y].loop.Contains(inv[x].loop) {
-			viol(known("Loop.Contains.compl", x, y, inv[y], inv[x]), "X.Contains(Y) != Inv(Y).Contains(Inv(X))", xn, yn)
+			viol("Loop.Contains.compl", "X.Contains(Y) != Inv(Y).Contains(Inv(X))", xn, yn)
 		}
 		// one-loop polygons answer like their loops
 		if x.kind != 0 && y.kind != 0 {
@@ -168,7 +156,7 @@ func doPair(c *vkit.Collector, rng *vkit.Rng, la, lb *s2.Loop, class string, coq
 		}
 		// --- the specification (brute force over all edge pairs / shared vertices) against the index walk
 		if sc := specContains(x, y); sc != cont {
-			viol(known("Loop.Contains.spec", x, y), fmt.Sprintf("Contains=%v, brute-force specification=%v", cont, sc), xn, yn)
+			viol("Loop.Contains.spec", fmt.Sprintf("Contains=%v, brute-force specification=%v", cont, sc), xn, yn)
 		}
 		if si := specIntersects(x, y); si != isect {
 			viol("Loop.Intersects.spec", fmt.Sprintf("Intersects=%v, brute-force specification=%v", isect, si), xn, yn)
@@ -222,8 +210,8 @@ func doPair(c *vkit.Collector, rng *vkit.Rng, la, lb *s2.Loop, class string, coq
 			for _, y := range vb {
 				t.addPair(x.v, y.v)
 				t.addPair(y.v, x.v)
-				expected = append(expected, maskDefect(relAnswers(x.v, y.v), x.v, y.v)...)
-				expected = append(expected, maskDefect(relAnswers(y.v, x.v), y.v, x.v)...)
+				expected = append(expected, relAnswers(x.v, y.v)...)
+				expected = append(expected, relAnswers(y.v, x.v)...)
 			}
 		}
 		c.Check(fmt.Sprintf("pair %s nA=%d nB=%d A=%s B=%s", class, A.n(), B.n(), fmtIDs(A), fmtIDs(B)),
@@ -241,40 +229,5 @@ func clone(v *lv) *s2.Loop {
 	return s2.LoopFromPoints(append([]s2.Point{}, v.pts...))
 }
 
-const knownKind = "Loop.Contains.edgeless-cell-target"
-
-// containsDefect recognises the known defect of loopCrosser.hasCrossingRelation on the pair (x, y):
-// Contains is false, the brute-force specification says true, and the index walk reported a
-// crossing although no edge pair crosses and every shared vertex passes the wedge test.
-func containsDefect(x, y *lv) bool {
-	if x.kind != 2 || y.kind != 2 || x.loop.Contains(y.loop) || !specContains(x, y) {
-		return false
-	}
-	walk, _ := s2.VerifC07HasCrossingRelation(x.loop, y.loop, 0)
-	brute, _ := specCrossContains(x, y)
-	return walk && !brute
-}
-
-// maskDefect replaces the Contains entry of relAnswers by the skip marker where the known defect applies
-// (the disagreement itself is reported as a violation of kind knownKind).
-func maskDefect(ans []int64, x, y *lv) []int64 {
-	if containsDefect(x, y) {
-		ans[0] = 7
-	}
-	return ans
-}
-
-var knownHits int
-
-// report forwards a violation; the known defect is reported twice at most (the collector keeps
-// 20 violations, which must remain available for anything else), all hits are counted.
-func report(c *vkit.Collector, kind, desc string, replay interface{}) {
-	if kind == knownKind {
-		knownHits++
-		c.Extra["known_defect_hits"] = knownHits
-		if knownHits > 2 {
-			return
-		}
-	}
-	c.Violate(kind, desc, replay)
-}
+// report forwards a violation found on the implementation.
+func report(c *vkit.Collector, kind, desc string, replay interface{}) { c.Violate(kind, desc, replay) }
